@@ -12,7 +12,8 @@
    [closed h]: every reference in h points to an allocated id (< next h). *)
 From Coq Require Import List ZArith NArith PArith Bool Lia.
 From IRV Require Import Base.Exn C13.Model C13.Proofs1 C13.Proofs3 C13.Proofs8 C13.Proofs9 C13.Proofs10
-     C13.Proofs11 C13.Proofs12 C13.Proofs13 C13.Proofs14.
+     C13.Proofs11 C13.Proofs12 C13.Proofs13 C13.Proofs14
+     C13.PyRemap Gen.C13Gen C13.Pinned C13.GenEquiv.
 Import ListNotations.
 Local Open Scope positive_scope.
 
@@ -299,6 +300,24 @@ Theorem C13_unsorted_rejected :
   snd (graph_clone 3 false false 19 wit_heap) = Raise RuntimeError.
 Proof. exact Proofs13.C13_unsorted_rejected. Qed.
 Print Assumptions C13_unsorted_rejected.
+
+(* ---- the source the model describes.  Gen/C13Gen.v is regenerated from /repo on every run.
+   (a) Every statement of Cloner._get_value / _clone_or_get_value / clone_attr / clone_meta / clone_node /
+   _remap_device_configurations / clone_graph, of Graph.clone / GraphView.clone / Function.clone / Model.clone and of
+   _FunctionalPassWrapper.call is the statement the model was written and proved against (C13/Pinned.v says which
+   model definition implements which method): an edit of any of them breaks this obligation (fail closed). *)
+Theorem C13_source_pinned : src_all = pinned_all.
+Proof. reflexivity. Qed.
+Print Assumptions C13_source_pinned.
+
+(* (b) Cloner._remap_device_configurations is translated statement by statement (its two loops with the `changed` /
+   `spec_changed` flags, `continue`, the "mapped to None: drop" branch, the early return and the final conditional):
+   for every value map without None entries - every map a clone() entry point builds - the translation computes
+   exactly what the model's clone_node uses. *)
+Theorem C13_remap_translation :
+  forall m dcs, gen_remap (lift_vmap m) dcs = map (remap_dev m) dcs.
+Proof. exact gen_remap_model. Qed.
+Print Assumptions C13_remap_translation.
 
 (* ---- the hypotheses are satisfiable by a non-trivial state *)
 Example C13_hypotheses_satisfiable : closed wit_heap /\ dicts_wf wit_heap /\ wf_dev wit_heap /\ 19 < next wit_heap.
